@@ -106,9 +106,10 @@ func helloFromSource(c *rtCase) (msg, record []byte, errs string, pn string) {
 				}
 				editALPN(&spec, s.Alpn)
 				u = tls.UClient(conn, cfg, tls.HelloCustom)
-				if err := u.ApplyPreset(&spec); err != nil {
+				if err := injectTicket(u, s.Ticket); err != nil { // before ApplyPreset, which adopts the injected extension
 					return u, err
 				}
+				return u, u.ApplyPreset(&spec)
 			}
 		case "randomized":
 			id, err := hlib.LookupID(s.ID)
@@ -127,9 +128,10 @@ func helloFromSource(c *rtCase) (msg, record []byte, errs string, pn string) {
 				return nil, err
 			}
 			u = tls.UClient(conn, cfg, tls.HelloCustom)
-			if err := u.ApplyPreset(spec); err != nil {
+			if err := injectTicket(u, s.Ticket); err != nil {
 				return u, err
 			}
+			return u, u.ApplyPreset(spec)
 		default:
 			return nil, fmt.Errorf("harness: unknown source kind %q", s.Kind)
 		}
